@@ -1,0 +1,255 @@
+//go:build verif
+// +build verif
+
+package server
+
+// Verification hooks for C22 (read/write splitting) and C06 (unshard
+// pre-check): a SessionExecutor over a namespace built by NewNamespace from a
+// JSON configuration, whose backend pools are replaced by recording fakes, and
+// exports of the unexported decision functions. Add-only; compiled only with
+// the build tag `verif`.
+
+import (
+	"context"
+	"encoding/json"
+	"fmt"
+	"sync"
+	"time"
+
+	"github.com/XiaoMi/Gaea/backend"
+	"github.com/XiaoMi/Gaea/models"
+	"github.com/XiaoMi/Gaea/mysql"
+	"github.com/XiaoMi/Gaea/parser"
+	"github.com/XiaoMi/Gaea/proxy/plan"
+	"github.com/XiaoMi/Gaea/util"
+)
+
+// VerifSession is a session executor whose backend pools record which node
+// class (master / slave / statistic-slave / monitor-…) hands out a connection.
+type VerifSession struct {
+	se  *SessionExecutor
+	ns  *Namespace
+	mu  sync.Mutex
+	log []string
+}
+
+type verifPool struct {
+	class string
+	vs    *VerifSession
+}
+
+func (p *verifPool) Open() error        { return nil }
+func (p *verifPool) Addr() string       { return p.class }
+func (p *verifPool) Datacenter() string { return "" }
+func (p *verifPool) Close()             {}
+func (p *verifPool) Get(ctx context.Context) (backend.PooledConnect, error) {
+	p.vs.mu.Lock()
+	p.vs.log = append(p.vs.log, p.class)
+	p.vs.mu.Unlock()
+	return &verifConn{class: p.class}, nil
+}
+func (p *verifPool) GetCheck(ctx context.Context) (backend.PooledConnect, error) { return p.Get(ctx) }
+func (p *verifPool) Put(pc backend.PooledConnect)                                {}
+func (p *verifPool) SetCapacity(capacity int) error                              { return nil }
+func (p *verifPool) SetIdleTimeout(idleTimeout time.Duration)                    {}
+func (p *verifPool) StatsJSON() string                                           { return "{}" }
+func (p *verifPool) Capacity() int64                                             { return 1 }
+func (p *verifPool) Available() int64                                            { return 1 }
+func (p *verifPool) Active() int64                                               { return 0 }
+func (p *verifPool) InUse() int64                                                { return 0 }
+func (p *verifPool) MaxCap() int64                                               { return 1 }
+func (p *verifPool) WaitCount() int64                                            { return 0 }
+func (p *verifPool) WaitTime() time.Duration                                     { return 0 }
+func (p *verifPool) IdleTimeout() time.Duration                                  { return 0 }
+func (p *verifPool) IdleClosed() int64                                           { return 0 }
+func (p *verifPool) SetLastChecked()                                             {}
+func (p *verifPool) GetLastChecked() int64                                       { return time.Now().Unix() }
+
+type verifConn struct{ class string }
+
+func (c *verifConn) Recycle()         {}
+func (c *verifConn) Reconnect() error { return nil }
+func (c *verifConn) Close()           {}
+func (c *verifConn) IsClosed() bool   { return false }
+func (c *verifConn) UseDB(db string) error {
+	return nil
+}
+func (c *verifConn) Execute(sql string, maxRows int) (*mysql.Result, error) {
+	return &mysql.Result{}, nil
+}
+func (c *verifConn) ExecuteWithTimeout(sql string, maxRows int, timeout time.Duration) (*mysql.Result, error) {
+	return &mysql.Result{}, nil
+}
+func (c *verifConn) SetAutoCommit(v uint8) error                 { return nil }
+func (c *verifConn) Begin() error                                { return nil }
+func (c *verifConn) Commit() error                               { return nil }
+func (c *verifConn) Rollback() error                             { return nil }
+func (c *verifConn) Ping() error                                 { return nil }
+func (c *verifConn) PingWithTimeout(timeout time.Duration) error { return nil }
+func (c *verifConn) SetCharset(charset string, collation mysql.CollationID) (bool, error) {
+	return false, nil
+}
+func (c *verifConn) FieldList(table string, wildcard string) ([]*mysql.Field, error) {
+	return nil, nil
+}
+func (c *verifConn) GetAddr() string { return c.class }
+func (c *verifConn) SetSessionVariables(frontend *mysql.SessionVariables) (bool, error) {
+	return false, nil
+}
+func (c *verifConn) SyncSessionVariables(frontend *mysql.SessionVariables) error { return nil }
+func (c *verifConn) WriteSetStatement() error                                    { return nil }
+func (c *verifConn) GetConnectionID() int64                                      { return 1 }
+func (c *verifConn) GetReturnTime() time.Time                                    { return time.Time{} }
+func (c *verifConn) MoreRowsExist() bool                                         { return false }
+func (c *verifConn) MoreResultsExist() bool                                      { return false }
+func (c *verifConn) FetchMoreRows(result *mysql.Result, maxRows int) error       { return nil }
+func (c *verifConn) ReadMoreResult(maxRows int) (*mysql.Result, error)           { return nil, nil }
+
+func (vs *VerifSession) fake(info *backend.DBInfo, class string) {
+	if info == nil {
+		return
+	}
+	for _, n := range info.Nodes {
+		if n.ConnPool != nil {
+			n.ConnPool.Close()
+		}
+		n.ConnPool = &verifPool{class: class, vs: vs}
+	}
+}
+
+// VerifNewSession builds the namespace described by nsJSON with NewNamespace
+// (the production constructor), replaces every backend pool by a recording
+// fake, and returns a session executor of `user` on it.
+func VerifNewSession(nsJSON string, user string, db string) (*VerifSession, error) {
+	cfg := &models.Namespace{}
+	if err := json.Unmarshal([]byte(nsJSON), cfg); err != nil {
+		return nil, err
+	}
+	ns, err := NewNamespace(cfg, "")
+	if err != nil {
+		return nil, err
+	}
+	vs := &VerifSession{ns: ns}
+	for _, s := range ns.slices {
+		vs.fake(s.Master, "master")
+		vs.fake(s.Slave, "slave")
+		vs.fake(s.StatisticSlave, "statistic-slave")
+		vs.fake(s.MonitorMaster, "monitor-master")
+		vs.fake(s.MonitorSlave, "monitor-slave")
+	}
+	// the executor's manager does not know the namespace, so the metrics recorders
+	// (which need a statistics manager) return early; the session's manager does
+	// (clearKsConns asks it for the namespace)
+	seMgr := NewManager()
+	cur, _, _ := seMgr.switchIndex.Get()
+	seMgr.namespaces[cur] = NewNamespaceManager()
+	ssMgr := NewManager()
+	cur, _, _ = ssMgr.switchIndex.Get()
+	ssMgr.namespaces[cur] = NewNamespaceManager()
+	ssMgr.namespaces[cur].namespaces[ns.name] = ns
+
+	se := newSessionExecutor(seMgr)
+	se.namespace = ns.name
+	se.user = user
+	se.db = db
+	se.contextNamespace = ns
+	se.charset = ns.GetDefaultCharset()
+	se.collation = ns.GetDefaultCollationID()
+	if up, ok := ns.userProperties[user]; ok {
+		se.userPriv = up.RWFlag
+		se.userType = up.OtherProperty
+	}
+	se.keepSession = ns.setForKeepSession
+	cc := new(Session)
+	cc.proxy = &Server{manager: seMgr, ServerVersion: "5.7.25-gaea"}
+	cc.proxy.ServerVersionCompareStatus = util.NewVersionCompareStatus("")
+	cc.c = &ClientConn{Conn: &mysql.Conn{}}
+	cc.manager = ssMgr
+	cc.namespace = ns.name
+	cc.executor = se
+	se.session = cc
+	vs.se = se
+	return vs, nil
+}
+
+// Close releases the namespace.
+func (vs *VerifSession) Close() { vs.ns.Close(false) }
+
+// CheckSelectLock is the flag NewNamespace derived from the configuration.
+func (vs *VerifSession) CheckSelectLock() bool { return vs.ns.CheckSelectLock }
+
+// ForceCheckSelectLock overwrites the (exported) namespace field.
+func (vs *VerifSession) ForceCheckSelectLock(v bool) { vs.ns.CheckSelectLock = v }
+
+// SetTx puts the session in / out of a transaction and sets autocommit.
+func (vs *VerifSession) SetTx(inTrans bool, autocommit bool) {
+	st := vs.se.status &^ (mysql.ServerStatusInTrans | mysql.ServerStatusAutocommit)
+	if inTrans {
+		st |= mysql.ServerStatusInTrans
+	}
+	if autocommit {
+		st |= mysql.ServerStatusAutocommit
+	}
+	vs.se.status = st
+}
+
+// SetKeepSession overrides the keep-session flag of the session.
+func (vs *VerifSession) SetKeepSession(v bool) { vs.se.keepSession = v }
+
+// SetDB sets the session database.
+func (vs *VerifSession) SetDB(db string) { vs.se.db = db }
+
+// ResetConns forgets transaction / keep-session connections and the pool log.
+func (vs *VerifSession) ResetConns() {
+	vs.se.txConns = map[string]backend.PooledConnect{}
+	vs.se.ksConns = map[string]backend.PooledConnect{}
+	vs.mu.Lock()
+	vs.log = nil
+	vs.mu.Unlock()
+}
+
+// PoolLog returns the node classes that handed out a connection since the last ResetConns.
+func (vs *VerifSession) PoolLog() []string {
+	vs.mu.Lock()
+	defer vs.mu.Unlock()
+	return append([]string{}, vs.log...)
+}
+
+// VerifCheckExecuteFromSlave runs, for one statement, what doQuery runs before
+// executing a plan: Preview, preBuildUnshardPlan (which stores the tokens in
+// the request context) and checkExecuteFromSlave.
+func (vs *VerifSession) VerifCheckExecuteFromSlave(sql string) (stmtType int, tokens []string, fromSlave bool) {
+	reqCtx := util.NewRequestContext()
+	stmtType = parser.Preview(sql)
+	reqCtx.SetStmtType(stmtType)
+	vs.se.preBuildUnshardPlan(reqCtx, vs.se.db, sql)
+	return stmtType, reqCtx.GetTokens(), checkExecuteFromSlave(reqCtx, vs.se, sql)
+}
+
+// VerifDoQuery runs SessionExecutor.doQuery on a fresh request context and
+// reports the fromSlave flag it left there, and the error if any.
+func (vs *VerifSession) VerifDoQuery(sql string) (fromSlave bool, stmtType int, err error) {
+	reqCtx := util.NewRequestContext()
+	defer func() {
+		if e := recover(); e != nil {
+			err = fmt.Errorf("panic: %v", e)
+		}
+	}()
+	_, err = vs.se.doQuery(reqCtx, sql)
+	return reqCtx.GetFromSlave(), reqCtx.GetStmtType(), err
+}
+
+// VerifPreBuildUnshardPlan exports preBuildUnshardPlan: the decision and the
+// database of the pre-built plan.
+func (vs *VerifSession) VerifPreBuildUnshardPlan(stmtType int, db string, sql string) (isUnshard bool, planDB string, tokens []string) {
+	reqCtx := util.NewRequestContext()
+	reqCtx.SetStmtType(stmtType)
+	p, ok := vs.se.preBuildUnshardPlan(reqCtx, db, sql)
+	if ok && p != nil {
+		planDB, _, _ = plan.VerifUnshardPlanInfo(p)
+	}
+	return ok, planDB, reqCtx.GetTokens()
+}
+
+// Namespace accessors for the harness (router, physical databases, sequences).
+func (vs *VerifSession) Namespace() *Namespace { return vs.ns }
